@@ -11,3 +11,26 @@ func VerifBinaryEncode(threshold []float32, vector []float32) []uint64 {
 	bq := &binaryQuantizer{threshold: threshold}
 	return bq.encode(vector)
 }
+
+// VerifPQState returns the trained state of a product quantised store: the
+// flat centroids (numSubVectors * numCentroids * subVectorLen) and the flat
+// centroid to centroid distance table (numSubVectors * numCentroids *
+// numCentroids), both empty before training. ok is false if vs is not a
+// product quantiser.
+func VerifPQState(vs VectorStore) (flatCentroids []float32, centroidDists []float32, ok bool) {
+	pq, ok := vs.(*productQuantizer)
+	if !ok {
+		return nil, nil, false
+	}
+	return pq.flatCentroids, pq.centroidDists, true
+}
+
+// VerifPQCodes returns the centroid ids (one per sub-vector) of a point of a
+// product quantised store. ok is false if p is not such a point.
+func VerifPQCodes(p VectorStorePoint) (centroidIds []uint8, ok bool) {
+	pp, ok := p.(*productQuantizedPoint)
+	if !ok {
+		return nil, false
+	}
+	return pp.CentroidIds, true
+}
